@@ -334,6 +334,9 @@ class Peer:
         if k == 'stop_reading':
             self.reading = False
             return True
+        if k == 'start_reading':
+            self.reading = True
+            return True
         raise HarnessError('unknown action %r' % (act,))
 
     def close(self):
@@ -465,6 +468,14 @@ class Client(Peer):
                     self.pc += 1
                     continue
                 return None
+            if k == 'sleep':
+                if getattr(self, '_sleep_pc', None) != self.pc:
+                    self._sleep_pc = self.pc
+                    self._sleep_until = self.w.now + st[1]
+                if self.w.now >= self._sleep_until - 1e-9:
+                    self.pc += 1
+                    continue
+                return None
             if k == 'wait_turns':
                 if self.w.turn >= st[1]:
                     self.pc += 1
@@ -476,7 +487,7 @@ class Client(Peer):
     def waiting_on_clock(self):
         if self.connected and self.pc < len(self.script):
             st = self.script[self.pc]
-            return st[0] == 'wait_time'
+            return st[0] in ('wait_time', 'sleep')
         return False
 
 
@@ -647,6 +658,7 @@ class WorldImpl(World):
         self.kinds = set(scn.kinds)
         self.trace = []
         self.turn = 0
+        self.turn_time = {0: 1000.0}
         self.now = 1000.0
         self.in_env = False
         self.idle_turns = 0
@@ -916,6 +928,7 @@ class WorldImpl(World):
                 self.no_quiescence = True
                 raise KeyboardInterrupt()
         self.turn += 1
+        self.turn_time[self.turn] = self.now
         a0 = self.activity
         self.env_turn()
         ready = selector._real.select(0)
